@@ -5,6 +5,7 @@ from qv.lib import QHooks, holds_set
 
 CHARS = frozenset(range(-128, 128))
 DIGITS = frozenset(range(48, 58))
+CLASSES = [frozenset([0]), DIGITS, frozenset([47]), frozenset(range(1, 47)), frozenset(range(58, 128)), frozenset(range(-128, 0))]
 LENS = [1, 2, 3, 4, 5, 100, 101, 102]     # 1..5: every byte value at every position; >= 100: digit tail (length rule only)
 
 
@@ -28,14 +29,14 @@ class DocmdHooks(QHooks):
         v = E.get(k)
         return next(iter(v)) if v else d
 
-    def materialize(self, E, path):
+    def materialize_split(self, E, path):
         if path.startswith('G:messid.s['):
             k = int(path[len('G:messid.s['):-1])
             n = self.g(E, 'G:messid.len', 0)
             if n > 5 and k >= 2:
-                return DIGITS
-            return CHARS
-        return TOP
+                return [DIGITS]
+            return CLASSES
+        return None
 
     def prim_err(self, E, x, args):
         E.set('$err', fs(min(self.g(E, '$err') + 1, 3)))
@@ -163,42 +164,12 @@ def run(ctx):
     def is_delnum(x):
         p = x.path()
         return p is not None and p.startswith('L:delnum')
-    effects = [c for c in dd.calls(('markdone', 'addbounce', 'job_close'))]
-    for x in dd.all_x():
-        if x.k == 'asg' and x.args[0].path() and x.args[0].path().endswith('.used'):
-            effects.append(x)
-        if x.k == 'un' and x.op in ('pre--', 'post--') and x.args[0].path() and ('numtodo' in x.args[0].path() or 'concurrencyused' in x.args[0].path()):
-            effects.append(x)
-    if len(effects) < 6:
-        raise AnalysisBroken('del_dochan: expected state-changing sites not found (%d)' % len(effects))
-    for e in effects:
-        g = dd.guards(e, fresh=False) or []      # the tests were made before any of these state changes
-        lo = any(c.strip().k == 'bin' and c.strip().op == '<' and is_delnum(c.strip().args[0]) and c.strip().args[1].const == 0 and t is False for c, t in g)
-        hi = False
-        for c, t in g:
-            cs = c.strip()
-            if cs.k == 'bin' and cs.op == '>=' and is_delnum(cs.args[0]) and t is False and cs.args[1].path() and cs.args[1].path().startswith('G:concurrency['):
-                hi = True
-        used = False
-        for c, t in g:
-            cs = c.strip()
-            if cs.k == 'un' and cs.op == '!' and t is False and cs.args[0].path() and cs.args[0].path().endswith('.used'):
-                used = True
-            if cs.path() and cs.path().endswith('.used') and t is True:
-                used = True
-        nm = e.callee if e.k == 'call' else e.src()[:30]
-        # delnum >= 0 is implied when delnum is assigned from an unsigned char; demand only hi+used, and lo unless so defined
-        lo_implied = False
-        for x in dd.all_x():
-            if x.k == 'asg' and is_delnum(x.args[0]):
-                rhs = x.args[1]
-                y = rhs
-                while y is not None and y.k == 'cast':
-                    if y.type == 'unsigned char':
-                        lo_implied = True
-                    y = y.args[0] if y.args else None
-        r4.check((lo or lo_implied) and hi and used, 'guarded:%s' % nm, e.where,
-                 'state change not dominated by 0 <= delnum < concurrency[c] and d[c][delnum].used (lo=%s hi=%s used=%s)' % (lo or lo_implied, hi, used))
+    from rules import qsend
+    ddsites = qsend.analyse_del_dochan(db, rep)
+    k = 'del:state-changes-only-for-an-in-range-delivery-slot-in-use'
+    if k not in ddsites:
+        raise AnalysisBroken('del_dochan: no state change explored')
+    r4.check(ddsites[k][0], k, ddsites[k][1], ddsites[k][2], ddsites[k][3])
     # clamp
     clamp = None
     reset = None
@@ -242,4 +213,4 @@ def run(ctx):
                 if dd.can_reach(sblk.id, lh, avoid={rb}):
                     ok = False
         r4.check(ok, 'report-buffer-reset-after-report', reset.where, 'a handled report can reach the next byte without dline[c].len = 0')
-    r4.expect_min(8)
+    r4.expect_min(3)
